@@ -86,6 +86,10 @@ def run(ctx):
     from . import detectors as _d
     _d.dtype_guard(rc, "Q-dtype", ["knee_ranking", "postprocessing"])
     _smooth_ranking(rc)
+    from . import c16, c17
+    from .common import borrow
+    borrow(rc, "Q3", c16._best_fit)                              # lf.r2: the fit quality the score multiplies
+    borrow(rc, "Q2", c17._sec_rank)                              # rank(): the permutation the arg-max is taken over
     _q7(rc)
     res.assumptions += ["cluster labels are non-decreasing contiguous runs 0..max (C11-L1) - with a foreign clustering callable the order clause is an assumption",
                         "argmax of rank returns a member attaining the maximal score (argsort is a permutation)"]
